@@ -999,4 +999,65 @@ theorem columnDfs_eq_dfsList (h : wfIn i = true) :
 
 end final
 
+section graph
+variable {e : Env} {L : Array Int} {nextl0 : Int}
+
+/-- the graph read off a well-formed state is acyclic and stays below `jcol` -/
+theorem adjR_lt (hE : EnvOK e L nextl0) : ∀ k, ∀ r ∈ adjR e L k, k < r ∧ r < e.jcol.toNat := by
+  intro k r hr
+  unfold adjR at hr
+  split at hr
+  · rename_i hk
+    obtain ⟨hk1, hk2⟩ := hk
+    unfold adjG adjCols at hr
+    simp only [mem_map, mem_filterMap] at hr
+    obtain ⟨kp', ⟨row, hrow, hsome⟩, rfl⟩ := hr
+    obtain ⟨l0, l1, l2, lrows⟩ := hE.lists k (by omega) hk2 hk1
+    obtain ⟨x, x1, x2, rfl⟩ := (mem_slice_iff l0).mp hrow
+    obtain ⟨r0, r1, _⟩ := lrows x x1 x2
+    split at hsome
+    · rename_i hlt
+      have hkp' : kp' = (rd e.perm_r (rd L x)).toNat := by simpa using hsome.symm
+      have hkpr : 0 ≤ rd e.perm_r (rd L x) ∧ rd e.perm_r (rd L x) < e.jcol := by
+        rcases hE.perm _ r0 r1 with h | h
+        · rw [h] at hlt; have : (EMPTY : Int) = -1 := rfl; omega
+        · exact h
+      have hc := repN_cast hE hkpr.1 hkpr.2
+      have := hE.rep _ hkpr.1 hkpr.2
+      rw [hkp']
+      omega
+    · simp at hsome
+  · simp at hr
+
+theorem rootCols_lt (hE : EnvOK e L nextl0) {rows : List Int} (hrows : ∀ r ∈ rows, 0 ≤ r ∧ r < e.m) :
+    ∀ r ∈ (rootCols e rows).map (repN e), r < e.jcol.toNat := by
+  intro r hr
+  unfold rootCols at hr
+  simp only [mem_map, mem_filterMap] at hr
+  obtain ⟨kp', ⟨row, hrow, hsome⟩, rfl⟩ := hr
+  obtain ⟨r0, r1⟩ := hrows row hrow
+  split at hsome
+  · simp at hsome
+  · rename_i hne
+    have hkp' : kp' = (rd e.perm_r row).toNat := by simpa using hsome.symm
+    have hkpr : 0 ≤ rd e.perm_r row ∧ rd e.perm_r row < e.jcol := by
+      rcases hE.perm _ r0 r1 with h | h
+      · exact absurd h hne
+      · exact h
+    have hc := repN_cast hE hkpr.1 hkpr.2
+    have := hE.rep _ hkpr.1 hkpr.2
+    rw [hkp']
+    omega
+
+/-- successor COLUMNS of a representative (what `snodeReps` calls `adjS`), nothing below a non-representative -/
+def adjSR (e : Env) (L : Array Int) (s : Nat) : List Nat :=
+  if repOf e s = s ∧ (s : Int) < e.jcol then adjCols e L s else []
+
+theorem adjR_eq_map (e : Env) (L : Array Int) : adjR e L = fun s => (adjSR e L s).map (repN e) := by
+  funext s
+  unfold adjR adjSR adjG
+  split <;> simp
+
+end graph
+
 end Slu.ColDfs
